@@ -1,7 +1,7 @@
 import TraitsVerif.Model.Assign
 import TraitsVerif.Generated.ValidateTables
 namespace TraitsVerif.Props.C01
-open TraitsVerif TraitsVerif.Py TraitsVerif.Model
+open TraitsVerif TraitsVerif.Py.Value TraitsVerif.Model.Val
 
 /-- A rejected assignment leaves the state as it was. -/
 theorem C01_reject (E : Env) (cls : Assign.ClassDef) (st : Assign.State) (name : String) (v : Val)
